@@ -25,6 +25,16 @@ struct Tape {
 	// byte mode (libFuzzer): choices are read from raw bytes, 1/2/4 bytes depending on the range
 	const uint8_t *bytes = nullptr;
 	size_t nbytes = 0, bpos = 0;
+	// raw mode: the tape holds values as rapidcheck generated them.  Their low bits are strongly biased towards
+	// ones (measured: value % 16 == 15 in 30% of cases), so they are scrambled before range reduction; 0 stays 0,
+	// which keeps "shrink towards 0 = default choice".  Replay files hold effective choices and are read verbatim.
+	bool rawmode = false;
+	static uint32_t scramble(uint32_t x)
+	{
+		if (!x) return 0;
+		x ^= x >> 16; x *= 0x7feb352dU; x ^= x >> 15; x *= 0x846ca68bU; x ^= x >> 16;
+		return x;
+	}
 
 	Tape() {}
 	explicit Tape(const std::vector<uint32_t> &v) : in(v) {}
@@ -41,7 +51,7 @@ struct Tape {
 		}
 		uint32_t v = pos < in.size() ? in[pos] : 0;
 		pos++;
-		return v;
+		return rawmode ? scramble(v) : v;
 	}
 	// uniform in [0,n)
 	uint32_t below(uint32_t n)
@@ -123,7 +133,7 @@ extern int enum_part, enum_parts;
 // search / replay / enum dispatcher; returns process exit code
 int harness_main(int argc, char **argv, PropDef &def);
 
-bool read_tape_file(const std::string &path, std::vector<uint32_t> &out, Bytes &rawbytes, bool &is_bytes);
+bool read_tape_file(const std::string &path, std::vector<uint32_t> &out, Bytes &rawbytes, bool &is_bytes, bool *is_raw = nullptr);
 void write_tape_file(const std::string &path, const std::vector<uint32_t> &t, const std::string &comment);
 
 } // namespace hz
